@@ -103,12 +103,13 @@ class LFDA(MahalanobisMixin, TransformerMixin):
 
     dim = _check_n_components(d, self.n_components)
 
+    k_max = max(d - 1, 1)
     if self.k is None:
-      k = min(7, d - 1)
-    elif self.k >= d:
+      k = min(7, k_max)
+    elif self.k > k_max:
       warnings.warn('Chosen k (%d) too large, using %d instead.'
-                    % (self.k, d - 1))
-      k = d - 1
+                    % (self.k, k_max))
+      k = k_max
     else:
       k = int(self.k)
     tSb = np.zeros((d, d))
